@@ -140,7 +140,7 @@ def run_harness(exe, cases, tmo):
     return res
 
 
-def run_judge(judge, lines, timeout):
+def run_judge(judge, lines, timeout, per_record=30):
     """Run the judge on record lines, in parallel chunks. Returns {rid: json}."""
     if not lines:
         return {}
@@ -148,7 +148,7 @@ def run_judge(judge, lines, timeout):
     chunks = [lines[i::n] for i in range(n)]
     procs = []
     for ch in chunks:
-        p = subprocess.Popen([judge], stdin=subprocess.PIPE, stdout=subprocess.PIPE, stderr=subprocess.STDOUT, text=True)
+        p = subprocess.Popen([judge, str(per_record)], stdin=subprocess.PIPE, stdout=subprocess.PIPE, stderr=subprocess.STDOUT, text=True)
         procs.append((p, ch))
     out = {}
     import threading
@@ -179,7 +179,7 @@ def run_judge(judge, lines, timeout):
 # ------------------------------------------------------------------------------------------------
 # evaluation of a batch of histories
 
-def evaluate(exe, judge, cases, bound, tmo=4, fuel=FUEL, judge_timeout=1500):
+def evaluate(exe, judge, cases, bound, tmo=4, fuel=FUEL, judge_timeout=1500, per_record=30):
     """cases: list of (cid, ops). Returns list of step verdicts:
        dict(cid, step, ops, snap, kind=None|<failure kind>, detail, judge=<json or None>)."""
     hres = run_harness(exe, cases, tmo)
@@ -211,7 +211,7 @@ def evaluate(exe, judge, cases, bound, tmo=4, fuel=FUEL, judge_timeout=1500):
             v["ok"] = s["ok"]; v["status"] = s["status"]; v["tree"] = s["tree"]
             lines.append(gen_pip.judge_line(rid, snap, s["status"], s["tree"], bound, BIGVALS if snap["big"] >= 0 else [], fuel))
             meta[rid] = v
-    jres = run_judge(judge, lines, judge_timeout)
+    jres = run_judge(judge, lines, judge_timeout, per_record)
     for rid, v in meta.items():
         j = jres.get(rid)
         v["judge"] = j
@@ -294,7 +294,10 @@ def attribute(v, T, bound):
             break
     cur = v
     if v["step"] >= 2:
-        fv = evaluate(T.exe, T.judge, [("fresh", fresh_case(v["snap"]))], bound)[0]
+        fv = evaluate(T.exe, T.judge, [("fresh", fresh_case(v["snap"]))], bound, per_record=120)[0]
+        if fv["kind"] in ("judge_error", "judge_no_answer"):
+            # the judge gave up on the fresh tree (many undecided valuations are expensive): smaller box
+            fv = evaluate(T.exe, T.judge, [("fresh", fresh_case(v["snap"]))], min(bound, 6), per_record=120)[0]
         if fv["kind"] is None:
             info["incremental_only"] = True
             return info
